@@ -38,7 +38,9 @@ class Scheduler:
         """Chooses an int in [0, n)."""
         if n <= 0:
             raise HarnessError(f"choose({kind}, {n})")
-        if not self.enabled or self.mode == "identity" or n == 1:
+        if n == 1:
+            return 0  # not a decision: neither drawn nor logged
+        if not self.enabled or self.mode == "identity":
             choice = 0
         elif self.mode == "prng":
             choice = self.rng.randrange(n)
